@@ -652,6 +652,15 @@ async def load_scripts(
             root = f"{parts[0]}.{parts[1]}"
             will_reload.add(root)
 
+    #
+    # a deleted (or "commented") file of an app or module also means a change of
+    # that app or module
+    #
+    for global_ctx_name in ctx_delete:
+        if global_ctx_name not in ctx2files and global_ctx_name.startswith("modules."):
+            parts = global_ctx_name.split(".")
+            will_reload.add(f"{parts[0]}.{parts[1]}")
+
     if len(will_reload) > 0:
 
         def import_recurse(ctx_name, visited, ctx2imports):
@@ -704,6 +713,27 @@ async def load_scripts(
                     this_src_info.force = False
                 ctx_delete.add(ctx_name)
         done.add(root)
+    #
+    # the same applies to an app or module with a deleted file: its other files are
+    # reloaded, and contexts of files that no longer exist go away with it
+    #
+    deleted_roots = set()
+    for global_ctx_name in ctx_delete:
+        if global_ctx_name not in ctx2files and global_ctx_name.startswith(("apps.", "modules.")):
+            parts = global_ctx_name.split(".")
+            deleted_roots.add(f"{parts[0]}.{parts[1]}")
+    for root in deleted_roots | done:
+        parts = root.split(".")
+        pkg_path = f"{parts[0]}/{parts[1]}/__init__.py"
+        mod_path = f"{parts[0]}/{parts[1]}.py"
+        if root not in done:
+            for ctx_name, this_src_info in ctx2files.items():
+                if ctx_name == root or ctx_name.startswith(f"{root}."):
+                    this_src_info.force = this_src_info.rel_path in {pkg_path, mod_path}
+                    ctx_delete.add(ctx_name)
+        for ctx_name in ctx_all:
+            if ctx_name == root or ctx_name.startswith(f"{root}."):
+                ctx_delete.add(ctx_name)
 
     #
     # delete contexts that are no longer needed or will be reloaded
